@@ -533,7 +533,7 @@ pub fn err_name(e: &AsepriteParseError) -> String {
     }
 }
 
-pub fn load_case(verbose: bool, bytes: &[u8]) -> Vec<String> {
+pub fn load_case(verbose: bool, outcome_only: bool, bytes: &[u8]) -> Vec<String> {
     let mut o = Vec::new();
     let r = guard(|| AsepriteFile::read(Cursor::new(bytes)));
     match r {
@@ -541,6 +541,9 @@ pub fn load_case(verbose: bool, bytes: &[u8]) -> Vec<String> {
         Some(Err(e)) => o.push(format!("load err {}", err_name(&e))),
         Some(Ok(ase)) => {
             o.push("load ok".to_string());
+            if outcome_only {
+                return o;
+            }
             let r = guard(|| {
                 let mut lines = Vec::new();
                 observe(verbose, &ase, bytes.len(), &mut lines);
@@ -584,15 +587,16 @@ fn main() {
         }
         match parts[0] {
             "PROFILE" => {}
-            "LOAD" | "LOADV" if parts.len() == 3 => {
+            "LOAD" | "LOADV" | "LOADO" if parts.len() == 3 => {
                 let verbose = parts[0] == "LOADV";
+                let outcome_only = parts[0] == "LOADO";
                 writeln!(out, "CASE {}", parts[1]).unwrap();
                 // flush so that a crash of this process can be attributed to this case
                 out.flush().unwrap();
                 match unhex(parts[2]) {
                     None => writeln!(out, "bad-hex").unwrap(),
                     Some(bytes) => {
-                        let lines = on_small_thread(move || load_case(verbose, &bytes));
+                        let lines = on_small_thread(move || load_case(verbose, outcome_only, &bytes));
                         match lines {
                             Some(lines) => {
                                 for l in lines {
